@@ -51,6 +51,12 @@ pub mod verif {
         InstanceInformation::from_records(service_name, records)
     }
 
+    /// A socket joined to the mDNS multicast group exactly as the services' own receive sockets are.
+    #[cfg(any(feature = "sync", feature = "async-tokio"))]
+    pub fn join_multicast_v4() -> std::io::Result<std::net::UdpSocket> {
+        crate::socket_helper::join_multicast(crate::NetworkScope::V4)
+    }
+
     #[cfg(feature = "async-tokio")]
     pub async fn add_response_to_resources_async(
         packet: Packet<'_>,
